@@ -1029,3 +1029,58 @@ Proof.
   unfold pl_text, print_para. cbn [pl_layout lossy_para_like]. induction p as [|f r IH]; [reflexivity|].
   cbn [map flat_map snd]. rewrite IH. reflexivity.
 Qed.
+
+(* ================================================================== 8. what the decidable table check gives *)
+Lemma ok_struct_nodup s : ok_struct s = true -> NoDup (map f_key (s_fields s)).
+Proof. unfold ok_struct. intros H. apply andb_true_iff in H. apply nodup_keys_NoDup. apply H. Qed.
+
+Lemma ok_struct_pairs s : ok_struct s = true -> s_from s = true -> s_to s = true ->
+  Forall (fun f => rt_pair (f_ser f) (f_de f) = true) (s_fields s).
+Proof.
+  unfold ok_struct. intros H Hf Ht. apply andb_true_iff in H. destruct H as [_ H]. rewrite Hf, Ht in H.
+  apply Forall_forall. intros f Hin. rewrite forallb_forall in H. specialize (H f Hin).
+  unfold ok_field in H. cbn [negb andb orb] in H. apply andb_true_iff in H. apply H.
+Qed.
+Lemma ok_struct_recognised s : ok_struct s = true ->
+  Forall (fun f => (s_to s = true -> f_ser f <> SUnrecognised) /\ (s_from s = true -> f_de f <> DUnrecognised)) (s_fields s).
+Proof.
+  unfold ok_struct. intros H. apply andb_true_iff in H. destruct H as [_ H].
+  apply Forall_forall. intros f Hin. rewrite forallb_forall in H. specialize (H f Hin).
+  unfold ok_field in H. apply andb_true_iff in H. destruct H as [H _]. apply andb_true_iff in H. destruct H as [H1 H2].
+  split; intros Hs; rewrite Hs in *; cbn [negb orb] in *; intros E0; rewrite E0 in *; discriminate.
+Qed.
+
+(* an accepted pair has representable values (the table check does not make the theorems vacuous) *)
+Lemma rt_pair_inhabited (E : Type) (ext_dom : N -> E -> Prop) s d :
+  rt_pair s d = true -> (forall i, exists e, ext_dom i e) -> exists v : uval E, val_dom E ext_dom s d v.
+Proof.
+  intros H Hext. destruct s, d; cbn in H; try discriminate.
+  - exists (VStr []). exact I.
+  - exists (VBool true). exact I.
+  - exists (VBool true). exact I.
+  - exists (VBool true). exact I.
+  - exists (VNum 0). cbn. apply N.neq_0_lt_0. apply N.pow_nonzero. discriminate.
+  - exists (VInt 0). cbn. unfold int_in_range.
+    assert (0 < 2 ^ (bits - 1))%N by (apply N.neq_0_lt_0; apply N.pow_nonzero; discriminate). lia.
+  - exists (VList []). reflexivity.
+  - exists (VList []). reflexivity.
+  - exists (VList [[]]). cbn. split; [discriminate|reflexivity].
+  - exists (VList []). cbn. split; [reflexivity|discriminate].
+  - apply N.eqb_eq in H. subst id0. destruct (Hext id) as (e & He). exists (VExt e). cbn. split; [reflexivity|exact He].
+Qed.
+
+(* the pair the apt-sources PDiffs field has (default ToString, deserialize_yesno) never round-trips *)
+Lemma bool_yesno_pair_refuted (E : Type) ext_print ext_parse b :
+  exists t, ser E ext_print SBool (VBool b) = Some t /\ de E ext_parse DYesNo t = None.
+Proof. destruct b; eexists; split; reflexivity. Qed.
+
+(* ================================================================== 9. apt-sources Signature: the finding and its fix *)
+Lemma sig_keep_refuted t : sig_parse_keep (sig_print (KeyBlock t)) = KeyBlock (10%N :: t).
+Proof. reflexivity. Qed.
+Lemma sig_strip_rt v : (forall p, v = KeyPath p -> has_lf p = false) -> sig_parse_strip (sig_print v) = v.
+Proof.
+  destruct v as [t|p]; intros H; [reflexivity|]. specialize (H p eq_refl). cbn [sig_print]. unfold sig_parse_strip.
+  destruct p as [|c r]; [reflexivity|]. rewrite H.
+  destruct (N.eqb_spec 10 c) as [<-|Hn]; [cbn in H; discriminate|].
+  destruct c as [|q]; [reflexivity|]. do 4 (destruct q as [q|q|]; try reflexivity). exfalso. apply Hn. reflexivity.
+Qed.
